@@ -511,7 +511,8 @@ class Facts:
                         nested_called.add(callee.fq)
                     # a private part of fn does not use up depth
                     self._effects(callee, b, pred,
-                                  depth if part else depth - 1,
+                                  depth if part or self._is_nested_in(
+                                      callee, fn) else depth - 1,
                                   chain + (callee.qualname,), stack, out,
                                   outer | frozenset(self.control(
                                       c, fn, bind)),
@@ -937,6 +938,9 @@ class Facts:
                         r.value.elts):
                     el = r.value.elts[idx[0]]
                     out |= self.flow.atoms(el, callee, b)
+                    if _depth < 3:
+                        # which return is taken decides the flag, too
+                        out |= self.control(r, callee, b, _depth + 1, _seen)
                     if isinstance(el, ast.Name) and _depth < 3:
                         for d in self._def_sites(el.id, callee):
                             out |= self.control(d, callee, b, _depth + 1,
